@@ -192,7 +192,9 @@ def class_mass(s, events):
 WCA = {
     'plain_lead': [[-1], [-3], [-3, -1], [-2]],
     'plain_nolead': [[-1], [-2]],
-    'integration': [[-1], [-3], [-3, -1], [-2], [-3, -2, -1]],
+    # (-2,) alone is not among the documented options of the integration models (their predict raises
+    # IndexError for it); the documented class-tied option is (-3, -2, -1)
+    'integration': [[-1], [-3], [-3, -1], [-3, -2, -1]],
 }
 
 
